@@ -202,7 +202,7 @@ def install(interp):
         mul=lambda a, b: a * b, add=lambda a, b: a + b, sub=lambda a, b: a - b, div=lambda a, b: a / b,
         pow=lambda a, b: a ** b,
         Tensor=E("torch.Tensor"), Size=E("torch.Size"), dtype=E("torch.dtype"), device=E("torch.device"), Generator=E("torch.Generator"),
-        no_grad=t_no_grad, sum=t_sum, mean=t_mean,
+        no_grad=t_no_grad, sum=t_sum, mean=t_mean, nansum=lambda x, dim=None, **kw: x.nansum(dim, **kw),
         pi=3.141592653589793,
     )
     for n, d in tz.DT.items():
